@@ -116,15 +116,22 @@ class CovarianceInterpolator(AbstractInterpolator):
         # noinspection PyTypeChecker
         super().__init__([samples.max_log_likelihood() for samples in samples_list])
 
-    def covariance_matrix(self) -> np.ndarray:
+    def covariance_matrix(self, samples_list=None) -> np.ndarray:
         """
         Calculate the covariance matrix of the samples
 
         This comprises covariance matrices for each sample, subsumed along the diagonal
+
+        Parameters
+        ----------
+        samples_list
+            The samples in the order in which their blocks are laid out (by default the
+            order in which they were supplied)
         """
-        matrices = [samples.covariance_matrix for samples in self.samples_list]
-        prior_count = self.samples_list[0].model.prior_count
-        size = prior_count * len(self.samples_list)
+        samples_list = self.samples_list if samples_list is None else samples_list
+        matrices = [samples.covariance_matrix for samples in samples_list]
+        prior_count = samples_list[0].model.prior_count
+        size = prior_count * len(samples_list)
         array = np.zeros((size, size))
         for i, matrix in enumerate(matrices):
             array[
@@ -133,11 +140,11 @@ class CovarianceInterpolator(AbstractInterpolator):
             ] = matrix
         return array
 
-    def inverse_covariance_matrix(self) -> np.ndarray:
+    def inverse_covariance_matrix(self, samples_list=None) -> np.ndarray:
         """
         Calculate the inverse covariance matrix of the samples
         """
-        covariance_matrix = self.covariance_matrix()
+        covariance_matrix = self.covariance_matrix(samples_list)
         return scipy.linalg.inv(
             covariance_matrix + 1e-6 * np.eye(covariance_matrix.shape[0])
         )
@@ -162,10 +169,12 @@ class CovarianceInterpolator(AbstractInterpolator):
         """
         x = []
         y = []
-        for sample in sorted(
+        # the blocks of the covariance matrix must follow the same order as x and y
+        samples_list = sorted(
             self.samples_list,
             key=lambda s: value.path.get_value(s.max_log_likelihood()),
-        ):
+        )
+        for sample in samples_list:
             # noinspection PyTypeChecker
             x.append(value.path.get_value(sample.max_log_likelihood()))
             y.extend([value for value in sample.max_log_likelihood(as_instance=False)])
@@ -173,7 +182,7 @@ class CovarianceInterpolator(AbstractInterpolator):
         return CovarianceAnalysis(
             np.array(x),
             np.array(y),
-            inverse_covariance_matrix=self.inverse_covariance_matrix(),
+            inverse_covariance_matrix=self.inverse_covariance_matrix(samples_list),
         )
 
     def _relationships_for_value(
